@@ -279,6 +279,14 @@ func (w *scWorld) apply(op scOp) (ok bool) {
 		w.rt.result, w.rt.keep, w.rt.drop = op.Result, op.Keep, op.Drop
 		rec := httptest.NewRecorder()
 		u := fmt.Sprintf("http://t%d:80/metrics?_jobName=job%d&_hash=%d&_scheme=http", op.Hash, op.Job, op.Hash)
+		if op.Result == "noclient" {
+			// the shard has no http client for the job (scrape.Manager could not build it): the request never leaves the
+			// proxy, so it is not a scrape of the target - nothing may be recorded
+			name := fmt.Sprintf("job%d", op.Job)
+			ji := w.jobInfo[name]
+			delete(w.jobInfo, name)
+			defer func() { w.jobInfo[name] = ji }()
+		}
 		func() {
 			defer func() {
 				if r := recover(); r != nil && r != http.ErrAbortHandler {
@@ -360,6 +368,12 @@ func sidecarRun(in interface{}) (string, interface{}, map[string]int) {
 		obs = append(obs, scObsTerm(o))
 	}
 	for _, op := range c.Ops {
+		if op.Kind == "scrape" && op.Result == "noclient" {
+			// not an operation of the model at all: whatever it changed shows at the next observation
+			w.apply(op)
+			st["op_scrape_noclient"]++
+			continue
+		}
 		if op.Kind == "update" && op.During != nil {
 			// the scrape started before the update and completes after it. What it records goes to the status object it
 			// found when it started: for a target assigned then, that is "update; scrape" (the object survives the update
@@ -460,7 +474,11 @@ func sidecarGen(r *rand.Rand, idx int, thorough bool) interface{} {
 					if r.Intn(4) == 0 {
 						st = 1
 					}
-					next[h] = scTarget{Hash: h, Series: int64(r.Intn(50)), Total: int64(50 + r.Intn(50)), State: st}
+					tot := int64(50 + r.Intn(50))
+					if r.Intn(4) == 0 { // the estimate (mean of three scrapes) above the last scrape's total, or no total known
+						tot = int64(r.Intn(30))
+					}
+					next[h] = scTarget{Hash: h, Series: int64(r.Intn(50)), Total: tot, State: st}
 					nextJob[h] = r.Intn(3)
 				}
 			}
@@ -500,12 +518,16 @@ func sidecarGen(r *rand.Rand, idx int, thorough bool) interface{} {
 				sort.Slice(keys, func(a, b int) bool { return keys[a] < keys[b] })
 				h = keys[r.Intn(len(keys))]
 			}
-			res := []string{"ok", "ok", "ok", "ok", "connfail", "status500", "midbody"}[r.Intn(7)]
+			res := []string{"ok", "ok", "ok", "ok", "connfail", "status500", "midbody", "noclient"}[r.Intn(8)]
 			keep := []int{0, 1, 2, 3, 7, 10, 11, 100}[r.Intn(8)]
 			c.Ops = append(c.Ops, scOp{Kind: "scrape", Now: now, Hash: h, Job: curJob[h], Result: res, Keep: keep, Drop: r.Intn(4) * r.Intn(5), Stopped: r.Intn(12) == 0})
 		default:
 			c.Ops = append(c.Ops, scOp{Kind: "restart", Now: now})
 		}
+	}
+	if n := len(c.Ops); n > 0 && c.Ops[n-1].Kind == "scrape" && c.Ops[n-1].Result == "noclient" {
+		// an observation after the last (unmodelled) request: a scrape of a target that is never assigned changes nothing
+		c.Ops = append(c.Ops, scOp{Kind: "scrape", Now: now + 1, Hash: 99, Job: 0, Result: "connfail"})
 	}
 	return c
 }
